@@ -609,10 +609,11 @@ func (fr *Frame) applyContract(st *State, con *Contract, fn *ssa.Function, args 
 			}
 		}
 	} else {
+		// the callee may allocate: its results (and what it stores) may be objects that did not exist before the call
+		fr.afterCallAlloc(st, con, resT)
 		for _, as := range con.Assigns {
 			fr.havocLoc(st, pre, as.Expr, env, con.Pkg)
 		}
-		g.bumpTop(st) // the callee may allocate: its results may be objects that did not exist before the call
 	}
 	// results
 	res := g.havocVal("r_"+sanitize(fn.Name()), resT)
@@ -932,10 +933,10 @@ func (fr *Frame) applyIfaceContract(st *State, con *Contract, c *ssa.CallCommon,
 		st.heap = g.havocHeap(st.heap, true)
 		g.bumpTop(st)
 	} else {
+		fr.afterCallAlloc(st, con, resT)
 		for _, as := range con.Assigns {
 			fr.havocLoc(st, pre, as.Expr, env, con.Pkg)
 		}
-		g.bumpTop(st)
 	}
 	res := g.havocVal("r_"+sanitize(c.Method.Name()), resT)
 	fr.knownRefVal(st, res)
@@ -970,10 +971,10 @@ func (fr *Frame) applyFuncTypeContract(st *State, con *Contract, c *ssa.CallComm
 		st.heap = g.havocHeap(st.heap, true)
 		g.bumpTop(st)
 	} else {
+		fr.afterCallAlloc(st, con, resT)
 		for _, as := range con.Assigns {
 			fr.havocLoc(st, pre, as.Expr, env, con.Pkg)
 		}
-		g.bumpTop(st)
 	}
 	res := g.havocVal("r_"+sanitize(shortKey(con.Key)), resT)
 	fr.knownRefVal(st, res)
@@ -1316,4 +1317,41 @@ func (fr *Frame) runDefers(st *State) {
 		st.cells, st.heap, st.path = ms.cells, ms.heap, ms.path
 	}
 	// flags of entry frames that were never set default to false
+}
+
+// afterCallAlloc: a contract call with an assigns clause may still allocate. When references can come back (through
+// the results or the assigned locations) the objects created by the callee have unknown contents: the heap is
+// layered (old objects keep their contents, newer ones are unconstrained). Otherwise only the watermark moves.
+func (fr *Frame) afterCallAlloc(st *State, con *Contract, resT types.Type) {
+	g := fr.g
+	if typeHasRef(resT, 0) || len(con.Assigns) > 0 {
+		st.heap = g.layerHeap(st.heap)
+		return
+	}
+	g.bumpTop(st)
+}
+
+func typeHasRef(t types.Type, depth int) bool {
+	if t == nil || depth > 4 {
+		return t != nil
+	}
+	switch u := t.Underlying().(type) {
+	case *types.Pointer, *types.Map, *types.Chan, *types.Slice, *types.Interface, *types.Signature:
+		return true
+	case *types.Struct:
+		for i := 0; i < u.NumFields(); i++ {
+			if typeHasRef(u.Field(i).Type(), depth+1) {
+				return true
+			}
+		}
+	case *types.Array:
+		return typeHasRef(u.Elem(), depth+1)
+	case *types.Tuple:
+		for i := 0; i < u.Len(); i++ {
+			if typeHasRef(u.At(i).Type(), depth+1) {
+				return true
+			}
+		}
+	}
+	return false
 }
